@@ -99,7 +99,7 @@ def run(prog, R):
                     n += 1
                     bad = [a for a in al if a["site"] == t["at"] or (a.get("via") and a["via"][0] == t["at"])]
                     R.ob("C12.1-ERRNODE-complete-sites", f"{short(fn)}:{n}", not bad, t["at"], "complete(_, ERROR) is preceded by Parser::error on every abstract path of the activation")
-    R.floor("complete(_, ERROR) sites", n, 2)
+    R.floor("complete(_, ERROR) sites", n, 1)
     R.ob("C12.1-ERRNODE", "token-consumptions", not [a for a in al if a["extra"].startswith("eat:")], "",
          f"{G.facts.get('EOFSAFE', 0)} abstract consumptions checked: a token whose kind set contains ERROR is consumed only after Parser::error in the same activation")
     # the lexer attaches no message to Unknown => ERROR: that is why the parser must (documented fact, checked)
@@ -126,7 +126,7 @@ def run(prog, R):
                 ok = not bad and (not arith or allow_arith)
                 R.ob("C12.2-span-provenance", f"{inventory.ishort(k)}->{c.split('::')[-1]}", ok, t["at"],
                      f"range/offset originates from {sorted(set((x[1] or '?').split('::')[-1] if x[0]=='call' else x[0] for x in o))}" + (f"; not boundary-valued: {bad[:3]}" if bad else "") + ("; arithmetic on offsets outside the reviewed site" if arith and not allow_arith else ""))
-    R.floor("SyntaxError construction sites", n, 5)
+    R.floor("SyntaxError construction sites", n, 3)
     # the one reviewed arithmetic site: validate_literal's push_err computes token_start + (off + prefix_len).  The
     # result is a character boundary of the file only if `off` is a boundary of the unquoted text (the callbacks
     # must hand on `range.start` of the unescape callback untouched) and prefix_len is the length that the same
